@@ -75,6 +75,7 @@ class RScope:
         self.table = None
         self.redef = set()  # := constants assigned more than once in this scope
         self.predecl = set()  # labels that a statement list of this scope defines (known from the start of that list)
+        self.predecl_eq = set()  # `=` symbols that a statement list of this scope defines
 
     def chain(self):
         s = self
@@ -193,7 +194,9 @@ class RefAsm:
                 v = s.defs.get(n)
                 if isinstance(v, int):
                     return v
-                if v is not None:
+                if v is not None or n in s.predecl_eq:
+                    # the scope defines the name by `=` (now or further down): its value is not known to the layout, and an
+                    # outer definition of the same spelling must not be used to guess a width
                     raise Undefined(n)
             raise Undefined(n)
         try:
@@ -253,6 +256,8 @@ class RefAsm:
             for st in body:
                 if st[0] == "label":
                     scope.predecl.add(st[1])
+                elif st[0] == "eq":
+                    scope.predecl_eq.add(st[1])
         for st in body:
             self.stmt(st, scope)
 
